@@ -38,12 +38,16 @@ StepOut ==
            ELSE IF act.a = "DropWriter" THEN {Chk9(current, q[1], q[2]) : q \in Queries}
            ELSE IF act.a = "ReaderQuery" THEN {Chk9(act.v, act.qn, qt) : qt \in QTypes}
            ELSE {},
+   \* C09 generator (Readers # {}): what a new reader gets right after a commit is
+   \* exactly the published version -- nothing of earlier abandoned sessions
+   chk9 |-> IF Readers # {} /\ act.a \in {"Build", "CommitPushVersion"}
+            THEN {Chk9(current, q[1], q[2]) : q \in Queries} ELSE {},
    walk |-> IF FreshPoint THEN WalkChk(current)
             ELSE IF act.a = "ReaderWalk" THEN WalkChk(act.v) ELSE NoWalk]
 
 GenInit == Init /\ hist = <<>>
 \* padding keeps every behaviour alive up to MaxHist steps (one CASE line each)
-Pad == UNCHANGED vars /\ hist' = Append(hist, [op |-> [a |-> "Pad"], chk |-> {}, walk |-> NoWalk])
+Pad == UNCHANGED vars /\ hist' = Append(hist, [op |-> [a |-> "Pad"], chk |-> {}, chk9 |-> {}, walk |-> NoWalk])
 GenNext == Len(hist) < MaxHist /\ ((Next /\ hist' = Append(hist, StepOut')) \/ Pad)
 GenSpec == GenInit /\ [][GenNext]_<<vars, hist>>
 
